@@ -382,6 +382,10 @@ func replay(kind string, input json.RawMessage) (bool, string) {
 		return e2.ReplayHeaderBytes(input)
 	case "history":
 		return e2.ReplayHistory(kind, input)
+	case "scale":
+		return e2.ReplayScale(input)
+	case "nest":
+		return e2.ReplayNest(input)
 	}
 	var c Case
 	if err := json.Unmarshal(input, &c); err != nil {
@@ -1130,6 +1134,10 @@ func run(r *chk.Run) {
 	// the streamer: every leading timestamp byte, a second format description
 	e2.RunHeaderBytes(r)
 	e2.RunServerVersions(r)
+	e2.RunScale(r, "big-events")
+	e2.RunChecksumChange(r)
+	e2.RunNested(r)
+	e2.RunQueryEnvelope(r)
 	r.Eval(e.evals.Load())
 	r.DistinctN(e.distinct.Load())
 	r.Rule("odometer enumeration of the product of the listed field domains per event kind; every event is built by the independent reference encoder, announced by a reference FORMAT_DESCRIPTION event decoded with Format(), passed through IsValid / header accessors / every Is* predicate / StripChecksum(announced algorithm) / the body accessor, and compared with the abstract values written; the same abstract event is executed in the three checksum configurations and the stripped event must carry exactly the body of the checksum-less twin. evaluations = (event, flavor constructor) executions, distinct = distinct event byte strings (each decoded by one or both flavor constructors)")
